@@ -124,6 +124,13 @@ func prepare(s *session, op Op, base int, walked bool) (string, wirecodec.Values
 		return "Tgetattr", wirecodec.Values{"fid": fid, "request_mask": []string{"mode"}}, nil
 	case "lopen":
 		return "Tlopen", wirecodec.Values{"fid": fid, "flags": 0}, nil
+	case "xlopen":
+		// Tlopen of a fid made by Txattrwalk: it shares the File of the fid it was walked from and must
+		// never reach File.Open (refused with EINVAL)
+		if _, err := s.call("Txattrwalk", wirecodec.Values{"fid": fid, "newfid": base + 5, "name": "user.x"}); err != nil {
+			return "", nil, err
+		}
+		return "Tlopen", wirecodec.Values{"fid": base + 5, "flags": 0}, nil
 	case "read":
 		return "Tread", wirecodec.Values{"fid": fid, "offset": 0, "count": 5}, open()
 	case "readdir":
